@@ -18,6 +18,16 @@ PROPS = {
         "level_text": "Kernel-checked: the regenerated binaryOps table equals spec.md's (decide); for every level table, a tree printed with the parentheses precedence and left-associativity require parses back to itself, and every tree has such a rendering (parenthesize). The evaluator model is validated, not proved against a second spec-shaped evaluator: the EVAL correspondence compares value+type+marks and error presence with the real evaluator on type-directed generated expressions in 3 layouts each; the direct oracle checks layout independence (AST and value) on the real parser.",
         "level_note": "Trusted: Lean kernel; propext, Quot.sound, Classical.choice; Go harness. Partial: no theorem relates the evaluator model to a separately written spec semantics (the model is code-shaped; agreement with the code is checked by correspondence); lexing, big-float rounding, NFC not modelled.",
     },
+    "C02": {
+        "lean": ["Props.C02"],
+        "gen": [],
+        "hx": ["C02"],
+        "trusted": ["structure-grammar model tied to hclsyntax/parser.go by the direct oracle (no driver op yet); expressions are one opaque token, quoted labels one token (their escape processing is C11)"],
+        "assumptions": ["attribute names unique per body for the round trip; the Ragel scanner is not modelled"],
+        "technique": "Lean 4 proof (body parser model behind the peeker: parse ∘ render = id for every layout; duplicates rejected) + render-parse-compare oracle over layouts",
+        "level_text": "Kernel-checked on a model of ParseBody / ParseBodyItem / finishParsingBodyAttribute / finishParsingBodyBlock / parseSingleAttrBody and the peeker's comment rule: every rendering of a body tree (blank lines, #, // and /* */ comments, one-line and empty blocks, bare or quoted labels, nesting) parses without error to exactly the written items; two renderings of one tree parse alike; a redefined attribute at any depth is rejected. The direct oracle renders generated trees as bytes in 6 layouts (CRLF, BOM, no final newline, escapes in labels) through the real lexer and parser.",
+        "level_note": "Trusted: Lean kernel; standard axioms; harness. Partial: byte-level lexing, heredoc values and label escapes are outside this model.",
+    },
     "C04": {
         "lean": ["Props.C04"],
         "gen": [],
@@ -108,6 +118,17 @@ PROPS = {
         "technique": "Lean 4 proof (verified balance checker, decided on the parser's push/pop skeleton regenerated from the Go AST) + near-valid mutation fuzzing of every entry point",
         "level_text": "Kernel-checked: balanced_sound (every terminating execution of every function of a balanced skeleton returns at its entry stack depth) and `balanced parserSkel = true` by decide on the skeleton regenerated from the current parser sources, so AssertEmptyIncludeNewlinesStack cannot fire on any path, recovery paths included. Totality, determinism, non-nil results and well-formed diagnostics of all 13 entry points are checked by mutation fuzzing with panic/hang capture.",
         "level_note": "Trusted: Lean kernel; propext, Quot.sound; the translator; harness. Partial: only the newline-stack panic is excluded by proof.",
+    },
+    "C17": {
+        "lean": ["Props.C17"],
+        "gen": [],
+        "hx": ["C17"],
+        "race": True,
+        "trusted": ["the table model is tied to AnonSymbolExpr.setValue/clearValue/Value by the SYMTAB correspondence (random operation sequences over several contexts through the verif hooks)", "data races below the level of the atomic table operations are not expressible in the model: they are searched with the Go race detector"],
+        "assumptions": ["every goroutine uses its own evaluation contexts; table operations are atomic (valuesLock)"],
+        "technique": "Lean 4 proof (isolation of per-context symbol tables under every interleaving) + SYMTAB correspondence + concurrent stress under the race detector",
+        "level_text": "Kernel-checked: for threads with pairwise disjoint context keys and EVERY interleaving of their atomic set/clear/get operations, each thread's operations stay in program order, each thread reads exactly what it reads running alone, and if every thread clears what it sets nothing is left in the table. The direct oracle runs 2-64 goroutines over shared parsed trees (native, JSON, dynblock-expanded) with per-goroutine contexts, compares every result with the solo result, checks for residue, and repeats the workload under -race.",
+        "level_note": "Trusted: Lean kernel; standard axioms; harness; Go race detector for the memory-model part. Partial: only the symbol-table bookkeeping is proved; interleavings below operation level can only be sampled.",
     },
 }
 
